@@ -142,10 +142,12 @@ PROPS["C14"] = dict(
     level="exploration",
     batches=dict(
         quick=[dict(harness="fstring", build="san", workload="c14", runs=300000, wall_cap=600),
-               dict(harness="hashmt", build="tsan", runs=3000, offset=300000, wall_cap=300)],
+               dict(harness="hashmt", build="tsan", runs=3000, offset=300000, wall_cap=300),
+               dict(harness="hashmt", build="opt", runs=20000, offset=310000, wall_cap=300)],
         thorough=[dict(harness="fstring", build="san", workload="c14", runs=2000000, wall_cap=2400),
                   dict(harness="fstring", build="plain", workload="c14", runs=8000000, offset=2000000, wall_cap=2400),
-                  dict(harness="hashmt", build="tsan", runs=60000, offset=10000000, wall_cap=1200)],
+                  dict(harness="hashmt", build="tsan", runs=60000, offset=10000000, wall_cap=1200),
+                  dict(harness="hashmt", build="opt", runs=400000, offset=11000000, wall_cap=1200)],
     ),
     rule=("(i) history half: C01-style histories in which std::hash of every string is compared after every step with the reference MurmurHash64A of the model characters (char), "
           "and 'hash' steps drive a second string to equal content through a detour that leaves different stale bytes, or rebuild the content in other layouts/capacities, and require equal hashes. "
